@@ -188,7 +188,7 @@ fn main() {
             &opts,
             "exploration",
             "c17",
-            opts.cases(120, 4000),
+            opts.cases(600, 8000),
             jobs,
             "CLI leg: per workload a generated text (1-30 lines, 1 in 8 400-1600 lines; ASCII, BMP, astral) encoded as UTF-16LE/BE with BOM or by -E label, optionally with an odd trailing byte, searched by the real rg (line or -U multi-line pattern, --no-mmap mostly) under syscall fault plans: none, read fragmentation, EINTR at each of the first six read indices, and 10 (quick) / 40 (thorough) seeded (EINTR index < 60, fragmentation seed) pairs. Oracle: stdout, exit status and empty stderr identical to rg on the UTF-8 equivalent at the same path.",
             vec!["the CLI leg covers UTF-16 only (decoded by hand for the reference); other encodings are covered by the library leg".into()],
